@@ -73,6 +73,7 @@ def check(res):
     res.oblige("correspondence: analyze_name model = symtable.AnalyzeName on all 12288 inputs (vm_compute, exhaustive)", bad == [], terr or str((bad or [])[:3]))
     cases = [(s, dict(kind="scope-tree", index=i)) for i, s in enumerate(progs.scope_programs(seed, 1500 if tier == "quick" else 40000))]
     cases += [(s, dict(kind=k)) for k, s in PROBES]
+    cases += [(s, dict(kind="captured-parameter", **m)) for s, m in progs.captured_param_programs()]
     srcs = [c[0] for c in cases]
     impl = pydiff.run_impl(srcs); ref = pydiff.run_ref(srcs)
     # determinism across map iteration orders: run everything twice more and compare outputs
